@@ -181,13 +181,13 @@ End RecComplete.
 Lemma all_rules_all r : In r all_rules.
 Proof. destruct r; cbn; tauto. Qed.
 
-(** [b] = true: the specification's reading of every rule; [b] = false: the implementation's scope of the two
-    partially enforced rules.  Both imply that nothing is reported. *)
+(** [b] = true: the specification's reading of every rule; [b] = false: the implementation's scope of the one
+    partially enforced rule (directive self-reference).  Both imply that nothing is reported. *)
 Theorem complete_gen b doc :
   unique_names doc = true -> ok_app_arg_unique doc = true -> ok_app_args_nonempty doc = true ->
-  (forall r, rule_ok_gen b r doc = true) -> ok_extra_args_nullable doc = true -> check_doc doc = [].
+  (forall r, rule_ok_gen b r doc = true) -> check_doc doc = [].
 Proof.
-  intros Hu Hau Hne HR HK.
+  intros Hu Hau Hne HR.
   apply check_doc_nil. intros d Hd. destruct d as [sd|t|dd|se|te]; cbn [check_def]; try reflexivity.
   - eapply schema_complete; eassumption.
   - eapply typedef_complete; try eassumption. apply In_types_of. exact Hd.
@@ -196,9 +196,9 @@ Proof.
     eapply directive_def_rest_complete; eassumption.
 Qed.
 
-Theorem complete doc : spec_valid doc = true -> ok_extra_args_nullable doc = true -> check_doc doc = [].
+Theorem complete doc : spec_valid doc = true -> check_doc doc = [].
 Proof.
-  unfold spec_valid. rewrite !andb_true_iff. intros [[[[[[Hu Hrules] Hau] Hne] _] _] _] HK.
+  unfold spec_valid. rewrite !andb_true_iff. intros [[[[[[Hu Hrules] Hau] Hne] _] _] _].
   apply (complete_gen true); try assumption.
   intros r. rewrite forallb_forall in Hrules. apply (Hrules r). apply all_rules_all.
 Qed.
